@@ -101,6 +101,8 @@ class RecordingGenerator(np.random.Generator):
         return r
 
     def standard_normal(self, size=None, dtype=np.float64, out=None):
+        if getattr(self, "_nested", False):  # called by Generator.multivariate_normal itself
+            return super().standard_normal(size, dtype, out)
         self._rec.maybe_fail()
         r = super().standard_normal(size, dtype, out)
         self._rec.note(self._label, "standard_normal", {"size": _sz(size)}, np.array(r))
@@ -110,7 +112,11 @@ class RecordingGenerator(np.random.Generator):
         self._rec.maybe_fail()
         mean_c = np.array(mean, dtype=float)
         cov_c = np.array(cov, dtype=float)
-        r = super().multivariate_normal(mean, cov, size, check_valid, tol, method=method)
+        self._nested = True
+        try:
+            r = super().multivariate_normal(mean, cov, size, check_valid, tol, method=method)
+        finally:
+            self._nested = False
         self._rec.note(
             self._label, "multivariate_normal", {"mean": mean_c, "cov": cov_c, "size": _sz(size)}, np.array(r)
         )
